@@ -13,7 +13,8 @@ import random
 from simkit import canon, core, procs, util
 from simkit.runner import ddmin_list, VERIF
 
-EDITS = ["add_symbol", "remove_symbol", "add_equation", "remove_equation", "add_class", "remove_class"]
+EDITS = ["add_symbol", "remove_symbol", "add_equation", "remove_equation", "add_class", "remove_class",
+         "add_initial_equation", "remove_initial_equation"]
 
 
 def all_classes(node, prefix=()):
@@ -57,6 +58,13 @@ def apply_edit(tree, e, src_tree=None):
         if e["idx"] >= len(c.equations):
             return False
         c.remove_equation(c.equations[e["idx"]])
+    elif k == "add_initial_equation":
+        eq = A.Equation(left=A.ComponentRef(name=e["name"]), right=A.Primary(value=float(e["k"])))
+        c.add_initial_equation(eq)
+    elif k == "remove_initial_equation":
+        if e["idx"] >= len(c.initial_equations):
+            return False
+        c.remove_initial_equation(c.initial_equations[e["idx"]])
     elif k == "add_class":
         n = A.Class(name=e["name"], type="model")
         s = A.Symbol(name="q", type=A.ComponentRef(name="Real"))
@@ -364,11 +372,15 @@ class Engine:
                     if not node.symbols:
                         continue
                     e["name"] = list(node.symbols)[op["idx"] % len(node.symbols)]
-                elif k == "add_equation":
+                elif k in ("add_equation", "add_initial_equation"):
                     names = [n for n, s in node.symbols.items()]
                     if not names:
                         continue
                     e["name"] = names[op["idx"] % len(names)]
+                elif k == "remove_initial_equation":
+                    if not node.initial_equations:
+                        continue
+                    e["idx"] = op["idx"] % len(node.initial_equations)
                 elif k == "remove_equation":
                     if not node.equations:
                         continue
